@@ -20,6 +20,8 @@ OUT = os.environ.get("VERIF_OUT", VERIF)      # where evidence/ and replay/ are 
 
 QUICK_BUDGET_S = 30
 THOROUGH_BUDGET_S = 180
+QUICK_TOTAL_S = 900          # wall budget of one discharge phase; obligations not reached by then stay `unknown` (exit 2)
+THOROUGH_TOTAL_S = 3600
 
 
 RANGED = {}     # array name -> (lo, hi): axiom  forall i. lo <= arr[i] <= hi, instantiated at every Select in a query
@@ -307,7 +309,22 @@ def discharge(obls, budget_s, progress=None):
     if not jobs:
         return
     p = pool()
-    for idx, st, t, reason, backend in p.imap_unordered(_work, jobs, chunksize=1):
+    t_start = time.time()
+    total = THOROUGH_TOTAL_S if budget_s > QUICK_BUDGET_S else QUICK_TOTAL_S
+    it = p.imap_unordered(_work, jobs, chunksize=1)
+    while True:
+        try:
+            idx, st, t, reason, backend = it.next(timeout=max(1.0, total - (time.time() - t_start)))
+        except StopIteration:
+            break
+        except mp.TimeoutError:
+            for o in obls:
+                if o.status is None:
+                    o.status, o.reason = "unknown", "global solver budget of %d s exhausted" % total
+            global _POOL
+            p.terminate()
+            _POOL = None
+            break
         o = obls[idx]
         o.time_s, o.backend, o.reason = t, backend, reason
         if isinstance(o, Cover):
